@@ -25,8 +25,8 @@
     `cyclic_classes_nonempty`, `cyclic_classes_unique`, `cyclic_classes_aperiodic`
   * sub-graph: `subgraph_edge_iff`; stored zeros: `elimZeros_spec`
   * histories on one object (label reassignment interleaved with reads): `dg_history_read`,
-    `dg_history_readSub`, `dgRead_indices_label_free`, `mc_history_read`, `mc_digraph_frozen`,
-    `mc_sets_before_first_read`
+    `dg_history_readSub`, `dgRead_indices_label_free`, `mc_coherent_after`, `mc_history_read`,
+    `mcRead_indices_label_free`
 -/
 import QEModel.C03
 import QEProofs.Lemmas.C03Period
@@ -1006,7 +1006,7 @@ theorem dgRead_indices_label_free (g : G) (L L' : Option (List Int)) (w : String
     simp only
     split <;> first | rfl | (exfalso; simp_all)
 
-/-! MarkovChain: the digraph freezes the labels at the first graph-theoretic read -/
+/-! MarkovChain: the digraph is built lazily and relabelled by the `state_values` setter -/
 
 def mcStateAfter (s : MCState) : List Step → MCState
   | [] => s
@@ -1022,53 +1022,56 @@ theorem mcRun_append (s : MCState) (a b : List Step) :
     | read w => simp only [List.cons_append, mcRun, mcStep, mcStateAfter, List.cons.injEq, true_and]; exact ih _
     | readSub nodes => simp only [List.cons_append, mcRun, mcStep, mcStateAfter, List.cons.injEq, true_and]; exact ih _
 
-/-- the labels a read of the chain uses: those of the digraph if it exists, else the current values -/
-def mcEffective (s : MCState) : Option (List Int) :=
-  match s.digraph with
-  | some dl => dl
-  | none => s.values
+/-- the object invariant: a built digraph carries the chain's current `state_values` -/
+def MCState.Coherent (s : MCState) : Prop := s.digraph = none ∨ s.digraph = some s.values
 
-/-- **History theorem (`MarkovChain`, the code as it is).** A read answers as a function of the
-    chain and of the labels its digraph carries — the `state_values` in force at the FIRST
-    graph-theoretic read. -/
-theorem mc_history_read (s : MCState) (pre : List Step) (w : String) :
-    mcRun s (pre ++ [.read w]) = mcRun s pre ++ [mcRead s.g (mcEffective (mcStateAfter s pre)) w] := by
-  rw [mcRun_append]
-  have hg : ∀ (t : MCState) (l : List Step), (mcStateAfter t l).g = t.g := by
-    intro t l
-    induction l generalizing t with
-    | nil => rfl
-    | cons st l ih => cases st <;> simp [mcStateAfter, mcStep, ih]
-  simp only [mcRun, mcStep, mcEffective, hg]
-  cases (mcStateAfter s pre).digraph <;> rfl
+theorem mcStep_coherent (s : MCState) (h : s.Coherent) (st : Step) : (mcStep s st).1.Coherent := by
+  cases st with
+  | setLabels L =>
+    rcases h with h | h <;> simp [mcStep, MCState.Coherent, h]
+  | read w =>
+    rcases h with h | h <;> simp [mcStep, MCState.Coherent, h]
+  | readSub nodes => exact h
 
-/-- once built, the digraph's labels never change (this is the stale-labels behaviour) -/
-theorem mc_digraph_frozen (s : MCState) (dl : Option (List Int)) (h : s.digraph = some dl) (l : List Step) :
-    (mcStateAfter s l).digraph = some dl := by
+/-- **T1 (the invariant is kept by every history)**; a fresh chain (`digraph = none`) satisfies it -/
+theorem mc_coherent_after (s : MCState) (h : s.Coherent) (l : List Step) :
+    (mcStateAfter s l).Coherent ∧ (mcStateAfter s l).g = s.g ∧
+      (mcStateAfter s l).values = labelsAfter s.values l := by
   induction l generalizing s with
-  | nil => exact h
+  | nil => exact ⟨h, rfl, rfl⟩
   | cons st l ih =>
-    cases st with
-    | setLabels L => exact ih _ (by simp [mcStep, h])
-    | read w => exact ih _ (by simp [mcStep, h])
-    | readSub nodes => exact ih _ (by simp [mcStep, h])
+    obtain ⟨h1, h2, h3⟩ := ih (mcStep s st).1 (mcStep_coherent s h st)
+    refine ⟨h1, ?_, ?_⟩
+    · rw [show mcStateAfter s (st :: l) = mcStateAfter (mcStep s st).1 l from rfl, h2]
+      cases st <;> rfl
+    · rw [show mcStateAfter s (st :: l) = mcStateAfter (mcStep s st).1 l from rfl, h3]
+      cases st <;> rfl
 
-/-- assignments made before the first read are honoured: with the digraph not yet built and a
-    history of assignments only, the next read uses the values assigned last -/
-theorem mc_sets_before_first_read (s : MCState) (h : s.digraph = none) (pre : List Step)
-    (hpre : ∀ st, st ∈ pre → ∃ L, st = .setLabels L) :
-    mcEffective (mcStateAfter s pre) = labelsAfter s.values pre := by
-  induction pre generalizing s with
-  | nil => simp [mcStateAfter, mcEffective, h, labelsAfter]
-  | cons st pre ih =>
-    obtain ⟨L, rfl⟩ := hpre st (by simp)
-    simp only [mcStateAfter, mcStep, labelsAfter]
-    exact ih _ (by simpa using h) (fun st' hst' => hpre st' (by simp [hst']))
+/-- **History theorem (`MarkovChain`).** Same statement as for `DiGraph`: whatever was read or
+    assigned before — before or after the digraph was built — a read of the chain answers what a
+    fresh chain with the `state_values` assigned last would answer. -/
+theorem mc_history_read (s : MCState) (h : s.Coherent) (pre : List Step) (w : String) :
+    mcRun s (pre ++ [.read w]) = mcRun s pre ++ [mcRead s.g (labelsAfter s.values pre) w] := by
+  rw [mcRun_append]
+  obtain ⟨hc, hg, hv⟩ := mc_coherent_after s h pre
+  simp only [mcRun, mcStep]
+  rcases hc with hc | hc <;> simp [hc, hg, hv]
+
+/-- index variants, counts and period of a chain do not depend on the labels at all -/
+theorem mcRead_indices_label_free (g : G) (L L' : Option (List Int)) (w : String)
+    (hw : w ≠ "commlab" ∧ w ≠ "reclab" ∧ w ≠ "cyclab") : mcRead g L w = mcRead g L' w := by
+  obtain ⟨h1, h2, h3⟩ := hw
+  unfold mcRead
+  cases sccClasses g with
+  | none => rfl
+  | some Cs =>
+    simp only
+    split <;> first | rfl | (exfalso; simp_all)
 
 example : dgRun ⟨⟨2, [[1], [1]]⟩, some [10, 20]⟩ [.read "scclab", .setLabels (some [7, 8]), .read "scclab"]
     = ["10;20", "7;8"] := by decide
-example : mcRun ⟨⟨2, [[0, 1], [1]]⟩, some [10, 20], none⟩ [.read "commlab", .setLabels (some [7, 8]), .read "commlab"]
-    = ["10;20", "10;20"] := by decide
+example : mcRun ⟨⟨2, [[0, 1], [1]]⟩, some [10, 20], none⟩ [.read "commlab", .setLabels (some [7, 8]), .read "commlab",
+    .setLabels none, .read "commlab"] = ["10;20", "7;8", "0;1"] := by decide
 
 
 end QE.C03
